@@ -1,6 +1,7 @@
 import BV.Model.FFIStream
 import BV.Lemmas.FFI
 import BV.Lemmas.AdaptersStream
+import BV.Lemmas.StreamTotal
 /-
 C13 over the stream-machine model: the un-wrapped entry points are total, and the stream wrapper
 issues the very request of the Rust call and hands back its cursors.
@@ -90,5 +91,213 @@ theorem cursorsAgree_of_stream {o : Oracle} {B fuel op : Nat} {s s' : St} {io' :
     omega
   · show io'.out.length + io'.availOut = c.availOut
     exact q1
+
+/-! ### all four operations, no hypothesis on the payload encoder (byte ledger, `Lemmas/StreamTotal`) -/
+
+/-- `CursorsAgree` is a theorem of the modelled `compress_stream` for PROCESS / FLUSH / FINISH /
+EMIT_METADATA, accepted or refused, from a fresh or an invariant-satisfying state — and the slice
+still to be read is the offered slice minus its first `offered - available_in` bytes -/
+theorem cursorsAgree_of_stream_all {o : Oracle} {fuel op : Nat} {s s' : St} {io' : Io} {r : Bool} {input : List Nat}
+    (c : StreamCall) (hop : op ≤ 3) (hR : IsFresh s ∨ Inv s) (hlen : input.length = c.availIn)
+    (hw : s.inputPos + input.length < two64)
+    (h : BV.Stream.compressStream o fuel s op input c.availOut = .ok (s', io', r)) :
+    CursorsAgree c (ansOfStream c.availIn c.availOut (.ok (s', io', r))) ∧
+    io'.input = input.drop (c.availIn - io'.availIn) := by
+  have hL := call_ledger_run 0 hop hR hw h
+  have h1 := hL.outBal
+  have h2 := hL.inLe
+  have h3 := hL.inEq
+  simp only at h1 h2 h3
+  refine ⟨⟨?_, ?_⟩, by rw [← hlen]; exact h3⟩
+  · show c.availIn - io'.availIn + io'.availIn = c.availIn
+    omega
+  · show io'.out.length + io'.availOut = c.availOut
+    exact h1
+
+/-- what `compress_stream` leaves in `total_out_`: the total at entry plus the bytes it stored at
+`next_out`, wrapping at 2^64 (`T0`: any number the total at entry is congruent to) -/
+theorem totalOut_of_stream {o : Oracle} {fuel op cap : Nat} (T0 : Nat) {s s' : St} {io' : Io} {r : Bool} {input : List Nat}
+    (hop : op ≤ 3) (hR : IsFresh s ∨ Inv s) (hw : s.inputPos + input.length < two64) (hT : s.totalOut = T0 % two64)
+    (h : BV.Stream.compressStream o fuel s op input cap = .ok (s', io', r)) :
+    s'.totalOut = (T0 + io'.out.length) % two64 :=
+  (call_ledger_run T0 hop hR hw h).total hT
+
+/-- `TotalTracks` is a theorem of the modelled `compress_stream` as long as the 64-bit counter does
+not wrap (fewer than 2^64 bytes delivered) -/
+theorem totalTracks_of_stream {o : Oracle} {fuel op : Nat} {s s' : St} {io' : Io} {r : Bool} {input : List Nat}
+    (c : StreamCall) (hop : op ≤ 3) (hR : IsFresh s ∨ Inv s) (hw : s.inputPos + input.length < two64)
+    (hnw : s.totalOut + c.availOut < two64)
+    (h : BV.Stream.compressStream o fuel s op input c.availOut = .ok (s', io', r)) :
+    TotalTracks { c with encTotal := s.totalOut } (ansOfStream c.availIn c.availOut (.ok (s', io', r))) := by
+  have hL := call_ledger_run s.totalOut hop hR hw h
+  have h1 := hL.outBal
+  have h2 := hL.total (Nat.mod_eq_of_lt (by omega)).symm
+  simp only at h1 h2
+  have hlt : s.totalOut + io'.out.length < two64 := by omega
+  rw [Nat.mod_eq_of_lt hlt] at h2
+  unfold TotalTracks
+  simp only [ansOfStream]
+  by_cases h0 : io'.out.length = 0 <;> simp [h0, h2]
+
+/-! ### a history of C ABI calls on one instance -/
+
+/-- one call through the C ABI -/
+inductive FfiCall where
+  | setParam (id v : Nat)                   -- `BrotliEncoderSetParameter`
+  | stream (op : Nat) (c : StreamCall)      -- `BrotliEncoderCompressStream` (`c.encTotal` is ignored: the instance's own total is used)
+  | take (size : Nat)                       -- `BrotliEncoderTakeOutput`
+  | hasMore | isFinished                    -- `BrotliEncoderHasMoreOutput` / `BrotliEncoderIsFinished` (state untouched)
+deriving Repr
+
+/-- what the caller has seen: every byte delivered so far (stored at `*next_out` by a stream call, or
+behind the pointer `TakeOutput` returned), and, for every stream call made with a non-null
+`total_out`, the pair (value read back from `*total_out`, number of bytes delivered up to and
+including that call) -/
+structure FfiSeen where
+  delivered : List Nat := []
+  cells : List (Nat × Nat) := []
+deriving Repr
+
+/-- the history, call by call; `none`: a Rust call unwound (or the model ran out of fuel) — what an
+instance does after `catch_panic` returned 0 is outside the contract, the history ends there -/
+def ffiRun (o : Oracle) (fuel : Nat) (mem : Mem) : List FfiCall → St → FfiSeen → Option (St × FfiSeen)
+  | [], s, seen => some (s, seen)
+  | .setParam id v :: cs, s, seen => ffiRun o fuel mem cs (ffiSetParameter s id v).1 seen
+  | .hasMore :: cs, s, seen => ffiRun o fuel mem cs s seen
+  | .isFinished :: cs, s, seen => ffiRun o fuel mem cs s seen
+  | .stream op c :: cs, s, seen =>
+    match BV.Stream.compressStream o fuel s op (inputSlice mem c.nextIn c.availIn) c.availOut with
+    | .ok _ =>
+      let r := ffiCompressStream o fuel s mem op c
+      let d := seen.delivered ++ r.2.2
+      ffiRun o fuel mem cs r.1 { delivered := d, cells := if c.totalOutPtr then seen.cells ++ [(r.2.1.totalOutCell, d.length)] else seen.cells }
+    | _ => none
+  | .take size :: cs, s, seen =>
+    match ffiTakeOutput s size with
+    | .ok (s', _, bytes) => ffiRun o fuel mem cs s' { seen with delivered := seen.delivered ++ bytes }
+    | _ => none
+
+/-- the history is within the contract: operation codes in range, every input pointer really
+addresses `available_in` bytes (pointer validity is the caller's obligation) -/
+def FfiHistOK (mem : Mem) : List FfiCall → Prop
+  | [] => True
+  | .stream op c :: cs => op ≤ 3 ∧ (inputSlice mem c.nextIn c.availIn).length = c.availIn ∧ FfiHistOK mem cs
+  | _ :: cs => FfiHistOK mem cs
+
+/-- bytes offered by the stream calls of a history -/
+def ffiHistLen : List FfiCall → Nat
+  | [] => 0
+  | .stream _ c :: cs => c.availIn + ffiHistLen cs
+  | _ :: cs => ffiHistLen cs
+
+theorem ffiSetParameter_fst (s : St) (id v : Nat) : (ffiSetParameter s id v).1 = (setParameter s id v).1 := by
+  unfold ffiSetParameter
+  cases h : setParameter s id v with
+  | mk s' b => cases b <;> rfl
+
+/-- the value a stream call leaves in `*total_out` (non-null pointer, no unwinding) is the
+instance's `total_out_` after the call -/
+theorem ffi_cell_is_total (o : Oracle) (fuel : Nat) (s : St) (mem : Mem) (op : Nat) (c : StreamCall)
+    (s' : St) (io' : Io) (r : Bool) (hptr : c.totalOutPtr = true) (hT : s.totalOut < two64)
+    (hR : IsFresh s ∨ Inv s) (hop : op ≤ 3) (hw : s.inputPos + (inputSlice mem c.nextIn c.availIn).length < two64)
+    (h : BV.Stream.compressStream o fuel s op (inputSlice mem c.nextIn c.availIn) c.availOut = .ok (s', io', r)) :
+    (ffiCompressStream o fuel s mem op c).2.1.totalOutCell = s'.totalOut := by
+  unfold ffiCompressStream
+  simp only [h]
+  simp only [BV.FFI.compressStream, ansOfStream, Bool.false_eq_true, if_false, hptr, if_true]
+  by_cases h0 : io'.out.length = 0
+  · rw [if_pos h0]
+    simp only
+    have := totalOut_of_stream s.totalOut hop hR hw (Nat.mod_eq_of_lt hT).symm h
+    rw [this, h0, Nat.add_zero, Nat.mod_eq_of_lt hT]
+  · rw [if_neg h0]
+
+theorem ffiCompressStream_ok (o : Oracle) (fuel : Nat) (s : St) (mem : Mem) (op : Nat) (c : StreamCall)
+    {s' : St} {io' : Io} {r : Bool}
+    (h : BV.Stream.compressStream o fuel s op (inputSlice mem c.nextIn c.availIn) c.availOut = .ok (s', io', r)) :
+    (ffiCompressStream o fuel s mem op c).1 = s' ∧ (ffiCompressStream o fuel s mem op c).2.2 = io'.out := by
+  simp [ffiCompressStream, h]
+
+theorem ffiTakeOutput_ok {s s' : St} {size n : Nat} {bytes : List Nat} (h : ffiTakeOutput s size = .ok (s', n, bytes)) :
+    BV.Stream.takeOutput s size = .ok (s', bytes) := by
+  unfold ffiTakeOutput at h
+  split at h
+  · rename_i s1 b1 h1
+    simp only [Out.ok.injEq, Prod.mk.injEq] at h
+    obtain ⟨rfl, _, rfl⟩ := h
+    exact h1
+  · simp at h
+  · simp at h
+
+/-- **`total_out` along a whole history of C ABI calls**: the instance's `total_out_` is the number
+of bytes delivered so far — stored at `*next_out` by the stream calls (all four operations, accepted
+or refused) AND handed out by pointer through `BrotliEncoderTakeOutput` — modulo 2^64, and every
+value a stream call stored through a non-null `total_out` pointer is that number at that moment -/
+theorem ffiRun_total {o : Oracle} {fuel : Nat} {mem : Mem} {calls : List FfiCall} {s0 s : St} {seen0 seen : FfiSeen}
+    (hR : RunOK s0) (hok : FfiHistOK mem calls) (hw : s0.inputPos + ffiHistLen calls < two64)
+    (hT : s0.totalOut = seen0.delivered.length % two64) (hC : ∀ x ∈ seen0.cells, x.1 = x.2 % two64)
+    (h : ffiRun o fuel mem calls s0 seen0 = some (s, seen)) :
+    s.totalOut = seen.delivered.length % two64 ∧ ∀ x ∈ seen.cells, x.1 = x.2 % two64 := by
+  induction calls generalizing s0 seen0 with
+  | nil =>
+    simp only [ffiRun, Option.some.injEq, Prod.mk.injEq] at h
+    obtain ⟨rfl, rfl⟩ := h
+    exact ⟨hT, hC⟩
+  | cons c cs ih =>
+    cases c with
+    | setParam id v =>
+      simp only [ffiRun] at h
+      have hrc : runCall o fuel s0 {} (.setParam id v) = .ok ((setParameter s0 id v).1, { results := [(setParameter s0 id v).2] }) := rfl
+      obtain ⟨hip, _, f1⟩ := runCall_facts (c := .setParam id v) hR (by trivial) hrc
+      rw [ffiSetParameter_fst] at h
+      refine ih f1.ok hok ?_ ?_ hC h
+      · simp only [Call.len, ffiHistLen] at hip hw ⊢; omega
+      · rw [setParameter_totalOut]; exact hT
+    | hasMore => simp only [ffiRun] at h; exact ih hR hok hw hT hC h
+    | isFinished => simp only [ffiRun] at h; exact ih hR hok hw hT hC h
+    | stream op c =>
+      simp only [ffiRun] at h
+      obtain ⟨hop, hlen, hok'⟩ := hok
+      simp only [ffiHistLen] at hw
+      split at h
+      · rename_i x hcs
+        obtain ⟨s1, io1, r1⟩ := x
+        obtain ⟨e1, e2⟩ := ffiCompressStream_ok o fuel s0 mem op c hcs
+        have hw0 : s0.inputPos + (inputSlice mem c.nextIn c.availIn).length < two64 := by rw [hlen]; omega
+        have hrc : runCall o fuel s0 {} (.stream op (inputSlice mem c.nextIn c.availIn) c.availOut)
+            = .ok (s1, Trace.afterStream o {} (ensureInitialized s0) op (inputSlice mem c.nextIn c.availIn) io1 r1) := by
+          simp only [runCall, hcs]
+        obtain ⟨hip, _, f1⟩ := runCall_facts (c := .stream op (inputSlice mem c.nextIn c.availIn) c.availOut) hR (show op ≤ 3 ∧ _ from ⟨hop, hw0⟩) hrc
+        have htot := totalOut_of_stream seen0.delivered.length hop hR.inv hw0 hT hcs
+        have hlt : s0.totalOut < two64 := by rw [hT]; exact Nat.mod_lt _ (by unfold two64; omega)
+        rw [e1, e2] at h
+        refine ih f1.ok hok' ?_ ?_ ?_ h
+        · simp only [Call.len] at hip; rw [hlen] at hip; omega
+        · simp only [List.length_append]; exact htot
+        · intro x hx
+          simp only at hx
+          by_cases hp : c.totalOutPtr = true
+          · rw [if_pos hp] at hx
+            rcases List.mem_append.mp hx with hx | hx
+            · exact hC x hx
+            · simp only [List.mem_singleton] at hx
+              subst hx
+              simp only [List.length_append]
+              rw [ffi_cell_is_total o fuel s0 mem op c s1 io1 r1 hp hlt hR.inv hop hw0 hcs]
+              exact htot
+          · rw [if_neg hp] at hx; exact hC x hx
+      · simp at h
+    | take size =>
+      simp only [ffiRun] at h
+      split at h
+      · rename_i s1 n1 b1 hts
+        have ht := ffiTakeOutput_ok hts
+        have hrc : runCall o fuel s0 {} (.take size) = .ok (s1, { delivered := b1 }) := by
+          simp only [runCall, ht]; rfl
+        obtain ⟨hip, _, f1⟩ := runCall_facts (c := .take size) hR (by trivial) hrc
+        refine ih (seen0 := { seen0 with delivered := seen0.delivered ++ b1 }) f1.ok hok ?_ ?_ (fun x hx => hC x hx) h
+        · simp only [Call.len, ffiHistLen] at hip hw ⊢; omega
+        · simp only [List.length_append]; exact take_total' hT ht
+      · simp at h
 
 end BV.FFI
